@@ -925,7 +925,7 @@ def run_scenario(mods, cfg, objective, r, eps, prints=None, after_create=None):
         up2 = [v + 0.5 for v in NBOXES[N2][1]]
         f2 = prefix_function(cfg.get('seed', 0) + 1, N2)
         p2 = P(N2, lo2, up2, lambda ys, i: f2([float(y) for y in ys]))
-        sib = make_solver(mods, p2, 3.0, 1e-9, 10 ** 6, density=cfg.get('density'), refine=cfg.get('refine', False))
+        sib = make_solver(mods, p2, 3.0, 1e-9, 12, density=cfg.get('density'), refine=cfg.get('refine', False))
         ctx['sibling'] = sib
     if after_create is not None:
         after_create(ctx)
@@ -945,7 +945,7 @@ def run_scenario(mods, cfg, objective, r, eps, prints=None, after_create=None):
             ctx['returned'].append(('solve', sol, snapshot_solution(sol), n0, len(prob.started)))
         elif st[0] == 'results':
             sol = s.GetResults()
-            ctx['polls'].append(snapshot_solution(sol))
+            ctx['polls'].append((snapshot_solution(sol), len(prob.done)))
         elif st[0] == 'keep':
             sol = s.GetResults()
             ctx['returned'].append(('keep', sol, snapshot_solution(sol), len(prob.started), len(prob.started)))
